@@ -106,4 +106,45 @@ PROPS = {
              "timeout": {Q: 300, T: 1800}},
         ],
     },
+    "C06": {
+        "pkg": "c06", "bin": True,
+        "technique": "exhaustive enumeration of the task grammar + rapid random tasks, compared with a task-run reference model "
+                     "(ordered token trace in a file and on stdout)",
+        "level_text": "Complete over the quantifier's grammar (1..3 commands x failing subsets x 0..3 variations x allow_failure x "
+                      "before/after absent|ok|failing x condition absent|true|false = 3024 tasks) in-process; random larger tasks "
+                      "(6 commands, 4 exit shapes, statuses 1..255, sleeps) in-process, as a stage and through the binary. The trace "
+                      "must equal the model trace token for token, so order, overlap (S immediately followed by its E), early stop "
+                      "and hook placement are all decided.",
+        "level_note": "When an `after` hook fails the remaining `after` hooks may or may not run (statement is silent); a task without "
+                      "variations counts as one empty variation.",
+        "rule": "grammar: full enumeration (status of failing commands from a PRNG seeded by VERIF_SEED); statuses: every status 0..255 at "
+                "every position of 1..3 commands x allow_failure; random/cli: rapid. Non-trivial for C06 = at least 2 commands and (a "
+                "failing command, or >= 2 variations, or a hook); distinct = canonical JSON of the case.",
+        "assumptions": ["commands are shell snippets verified to work in mvdan/sh v3.1.1 (printf, exit, subshell, sh -c, pipeline)"],
+        "parts": [
+            {"name": "grammar", "test": "TestGrammar", "kind": "plain", "shards": {Q: 8, T: 16}, "timeout": {Q: 400, T: 900}},
+            {"name": "random", "test": "TestRandom", "checks": {Q: 1600, T: 40000}, "shards": {Q: 4, T: 16}, "timeout": {Q: 400, T: 2400}},
+            {"name": "cli", "test": "TestCLI", "checks": {Q: 200, T: 4000}, "shards": {Q: 4, T: 16}, "timeout": {Q: 400, T: 2400}},
+        ],
+    },
+    "C07": {
+        "pkg": "c06", "bin": True,
+        "technique": "exhaustive status sweep (0..255 x position x allow_failure x direct/stage) + grammar enumeration + rapid CLI "
+                     "target vectors, against the task-run model",
+        "level_text": "Every exit status 0..255 at every command position of 1..3-command tasks, with and without allow_failure, run "
+                      "directly and as a pipeline stage, is compared with the model (error-nil-ness, Errored, Error, ExitCode, Skipped); "
+                      "CLI: 1..4 targets (tasks and pipelines) with drawn statuses in drawn order: exit 0 iff all succeed, executed in "
+                      "command-line order, nothing after the first failing target.",
+        "level_note": "Errored/ExitCode after a failing before-hook are not asserted (the statement speaks of commands); the non-zero value "
+                      "of the process exit status is not asserted.",
+        "rule": "statuses: full sweep; grammar: as C06; targets: rapid argv of 1..4 targets. Non-trivial for C07 = status > 1, or failing "
+                "position > 0, or run as stage/CLI, or >= 2 targets; distinct = canonical JSON.",
+        "assumptions": ["commands are shell snippets verified to work in mvdan/sh v3.1.1"],
+        "parts": [
+            {"name": "statuses", "test": "TestStatuses", "kind": "plain", "shards": {Q: 8, T: 16}, "timeout": {Q: 400, T: 900}},
+            {"name": "grammar", "test": "TestGrammar", "kind": "plain", "shards": {Q: 4, T: 16}, "timeout": {Q: 400, T: 900}},
+            {"name": "random", "test": "TestRandom", "checks": {Q: 800, T: 40000}, "shards": {Q: 2, T: 16}, "timeout": {Q: 400, T: 2400}},
+            {"name": "targets", "test": "TestTargets", "checks": {Q: 300, T: 6000}, "shards": {Q: 4, T: 16}, "timeout": {Q: 400, T: 2400}},
+        ],
+    },
 }
